@@ -133,6 +133,14 @@ CHECKS.update({
          True),
 })
 
+CHECKS.update({
+ "C20": ("xs+enum", "model_checking",
+         "explicit-state BFS to fixpoint over the product (trigger-period rule x real CdpRunningValidator) per configured period; exhaustive CLI enumeration of custom-check key subsets x values",
+         "xs: for P in {1, 891, 3563} the product of the real TDH period check (inside a real CdpRunningValidator in stave mode with -p P) and the model 'E45 exactly for consecutive internal-trigger TDHs whose BC distance modulo 3564 differs from P' over the alphabet BC in {0, 1, P-1, P, 3563-P+1, 3563} x internal 0/1 is explored to its fixpoint (887 states, 9 258 transitions; key = last internal BC + implementation fingerprint), E45 judged on every transition and required at the TDH's own offset. enum (CLI, check all its-stave on an outer-layer stream with ALPIDE frames and known counts): all 32 subsets of {cdps, triggers_pht, rdh_version, chip_count_ob, chip_orders_ob}, every key of the subset at the true value and, one at a time, at truth-1 and truth+1 (chip orders: swapped pair / shifted list): the documented code (E9001, E9002, E10, E9004, E9005) appears iff observed != configured, exit status 9 iff so; a file with every key commented out and the generated all-default file give byte-identical output (stderr + report) to no file, in three modes.",
+         "Values one below / one above the truth stand for 'differs'; BCs outside 0..3563 are not generated.",
+         True),
+})
+
 NOT_YET = {
 }
 
